@@ -57,7 +57,7 @@ def rand_case_part(chk, tier):
     jobs = []
     gen.EXCLUDE = set()
     for k in range(ndocs):
-        base = gen.rand_doc(rng, nmax=12, xml=False, names=['ab', 'AB', 'Ab', 'c'])
+        base = gen.rand_doc(rng, nmax=12, xml=False, names=['az', 'AZ', 'Az', 'c'])
         for a_list in base['attrs']:
             for a in a_list:
                 if rng.random() < 0.5:
@@ -66,7 +66,7 @@ def rand_case_part(chk, tier):
                 if rng.random() < 0.5 and not a.get('list'):
                     a['v'] = recase(a['v'])
             # an element cannot carry the same attribute name twice
-        asts = [recase_ast(gen.rand_list(rng, depth=rng.choice([0, 1, 2]), names=['ab', 'AB', 'c'])) for _ in range(nsel)]
+        asts = [recase_ast(gen.rand_list(rng, depth=rng.choice([0, 1, 2]), names=['az', 'AZ', 'c'])) for _ in range(nsel)]
         import copy
         for mode in ('html', 'xml', 'xhtml'):
             d = copy.deepcopy(base)
